@@ -86,7 +86,7 @@ class K:
         return self.call(self.BCV, ty if ty is not None else self.nat(), name or f"n{i}", i)
 
     def inp(self, ty, flags="NoFlags"):
-        return self.call(self.FI, ty, self.IF.members[flags] if hasattr(self.IF, "members") else self.it.getattr(self.IF, flags))
+        return self.call(self.FI, ty, self.it.getattr(self.IF, flags))
 
 
 def mk_T(it, mapping):
